@@ -72,18 +72,20 @@ def rc(v): return Ptr(Cell(v), 'rc')
 def NULL(): return mk_enum('Variable', 'Null', [])
 
 # ---------------------------------------------------------------- concretisation
-def lazy_null_constraints(v, acc):
-    """constraints that pin every still-unmaterialised part of v to Null (so the model is a complete document)"""
+def pin_tag(lz, prefer='Null'):
+    if prefer in lz.tags: return prefer
+    return 'Null' if 'Null' in lz.tags else lz.tags[0]
+def lazy_null_constraints(v, acc, prefer='Null'):
+    """constraints that pin every still-unmaterialised part of v to `prefer` (default Null) so the model is a complete document"""
     v = MM.deref_all(v)
     if not isinstance(v, Agg): return
     if v.lazy is not None:
-        if 'Null' in v.lazy.tags: acc.append(v.lazy.tagvar == VIDX['Null'])
-        else: acc.append(v.lazy.tagvar == VIDX[v.lazy.tags[0]])
+        acc.append(v.lazy.tagvar == VIDX[pin_tag(v.lazy, prefer)])
         return
     if v.variant == 'Array':
-        for c in v.fields[0].v.items: lazy_null_constraints(c.v, acc)
+        for c in v.fields[0].v.items: lazy_null_constraints(c.v, acc, prefer)
     elif v.variant == 'Object':
-        for k in v.fields[0].v.d: lazy_null_constraints(v.fields[0].v.d[k].v, acc)
+        for k in v.fields[0].v.d: lazy_null_constraints(v.fields[0].v.d[k].v, acc, prefer)
 
 def fval(x, model):
     f = model.eval(x.f, model_completion=True) if model is not None else z3.simplify(x.f)
@@ -91,13 +93,14 @@ def fval(x, model):
     if z3.is_bv_value(bits): return struct.unpack('<d', struct.pack('<Q', bits.as_long()))[0]
     return None
 
-def tagged(ex, v, model):
-    """engine Variable value -> tagged JSON (exact numbers) under the model; unmaterialised lazy parts -> their pinned tag (Null)"""
+def tagged(ex, v, model, prefer='Null'):
+    """engine Variable value -> tagged JSON (exact numbers) under the model; unmaterialised lazy parts -> their pinned tag"""
     from vf.native import tag_num
     v = MM.deref_all(v)
     if v.lazy is not None:
-        t = v.lazy.tags[0] if 'Null' not in v.lazy.tags else 'Null'
-        return {'Null': None, 'String': v.lazy.spec.strs[0], 'Bool': False, 'Number': tag_num('pos', 0)}.get(t)
+        t = pin_tag(v.lazy, prefer)
+        if t == 'Bool': return bool(z3.is_true(model.eval(z3.Bool('pinbool'), model_completion=True))) and False
+        return {'Null': None, 'String': v.lazy.spec.strs[0], 'Number': tag_num('pos', 0), 'Array': [], 'Object': {}}.get(t)
     t = v.variant
     if t == 'Null': return None
     if t == 'Bool': return MM.cval(v.fields[0].v, model)
@@ -106,8 +109,8 @@ def tagged(ex, v, model):
         n = v.fields[0].v
         if n.kind == 'float': return tag_num('float', fval(n.val, model))
         return tag_num(n.kind, MM.cval(n.val, model))
-    if t == 'Array': return [tagged(ex, c.v, model) for c in v.fields[0].v.items]
-    if t == 'Object': return {k: tagged(ex, v.fields[0].v.d[k].v, model) for k in v.fields[0].v.keys()}
+    if t == 'Array': return [tagged(ex, c.v, model, prefer) for c in v.fields[0].v.items]
+    if t == 'Object': return {k: tagged(ex, v.fields[0].v.d[k].v, model, prefer) for k in v.fields[0].v.keys()}
     if t == 'Expref': return {'$expref': '?'}
 
 def str_conc(sv, model):
